@@ -62,6 +62,7 @@ type raceReq struct {
 	rxIf    int  // receive interface index given to the server
 	pinned  bool // the reply must be pinned to rxIf (link-local peer / broadcast)
 	unanswered bool // a datagram of a kind the server never answers
+	storm      bool // part of the refresh storm (replies are only checked for the echo)
 	l2link     string // DHCPv4 answered at link level: the interface the request arrived on (ve0|vf0)
 	relay      byte   // DHCPv4: last byte of the relay address 10.9.9.x the request came through
 	opt82      []byte // relay agent information this relay added
@@ -217,6 +218,41 @@ func (raceEngine) Run(ctx *fw.Ctx, cs any) {
 		job.Reqs = append(job.Reqs, ChainReq{SleepMs: 1})
 		reqs = append(reqs, nil)
 	}
+	// a refresh storm: both lease files are rewritten (same version, so nothing changes for the oracles)
+	// every 150 us while a long burst of requests from clients that are NOT in the files is in flight -
+	// lookups that miss, racing reloads
+	{
+		stormV4 := versionFile(false, raceStaticMacs, ver, "")
+		stormV6 := versionFile(true, raceStaticMacs, ver, "")
+		for j := 0; j < 500; j++ {
+			xid++
+			r := &raceReq{v6: j%3 == 2, xid: xid & 0xffffff, unanswered: false}
+			r.mac = dynMac(20000 + j%40)
+			var cr ChainReq
+			if r.v6 {
+				// an IA_NA from a client the file does not list (MAC from the DUID): lookup miss in the v6 instance
+				msg := pkt.Msg6(3, r.xid, []pkt.Opt6{pkt.O6(pkt.OptClientID6, pkt.DUIDLL(r.mac)), pkt.O6(pkt.OptServerID6, serverDUID), pkt.IANA(9, 0, 0, nil)})
+				cr = ChainReq{V6: true, Hex: hex.EncodeToString(msg), RxIf: fakeIf, Peer: "2001:db8:ffff::99", Port: 546, Async: true}
+				r.storm = true
+			} else {
+				p := pkt.Request4(r.xid, r.mac, 1, pkt.O4(61, append([]byte{1}, r.mac...)...))
+				p.Gi = pkt.IP4("10.9.9.9")
+				r.relay, r.opt82 = 0, nil
+				cr = ChainReq{Hex: hex.EncodeToString(p.Bytes()), RxIf: fakeIf, Peer: "10.9.9.9", Port: 67, Async: true}
+				r.storm = true
+			}
+			if j == 0 {
+				cr.Write = &FileWrite{Name: "l4.txt", Content: stormV4, Repeat: 400, IntervalUs: 150}
+			}
+			if j == 1 {
+				cr.Write = &FileWrite{Name: "l6.txt", Content: stormV6, Repeat: 400, IntervalUs: 150}
+			}
+			reqs = append(reqs, r)
+			job.Reqs = append(job.Reqs, cr)
+		}
+		job.Reqs = append(job.Reqs, ChainReq{SleepMs: 1})
+		reqs = append(reqs, nil)
+	}
 	// last: a large version of the DHCPv4 lease file and, right behind it, a small newer one; the refresh
 	// machinery must end on the newer one (sequentially polled, after the bursts)
 	finalVer := -1
@@ -238,10 +274,20 @@ func (raceEngine) Run(ctx *fw.Ctx, cs any) {
 			Poll:  &PollSpec{Until: hex.EncodeToString(versionAddr(false, finalVer, 0)), MaxPolls: 120, IntervalMs: 20, Hold: true}})
 		reqs = append(reqs, nil)
 	}
-	out := RunChain(job, ctx.Scratch, 4*time.Minute)
+	out := RunChain(job, ctx.Scratch, 100*time.Second)
 	desc := fmt.Sprintf("dual-stack full chains, range of %d, %s bursts %v", c.RangeN, c.Kind, c.Bursts)
 	if out.SetupErr != "" {
 		ctx.Inconclusive("raceserver: setup failed: %s", out.SetupErr)
+		return
+	}
+	if out.TimedOut {
+		if frame := lockFrame(out.Stderr); frame != "" {
+			for _, pr := range []string{"C16", "C01"} {
+				ctx.Viol(pr, "wedged:"+frame, "%s: handling stopped making progress under concurrent load (burst starting at request %d); a goroutine is parked on a lock below %s and nothing returns any more\n%s", desc, out.DiedAt, frame, firstLines(out.Stderr, 40))
+			}
+		} else {
+			ctx.Inconclusive("raceserver: the child exceeded its 100 s watchdog without a lock-parked handler (%s)", desc)
+		}
 		return
 	}
 	if out.Died {
@@ -367,6 +413,9 @@ func (raceEngine) Run(ctx *fw.Ctx, cs any) {
 						ctx.Viol("C16", "static-client-not-served", "%s: static DHCPv6 client #%d got %v (%v)", desc, rq.macIdx, addrs, err)
 					}
 					continue
+				}
+				if rq.storm {
+					continue // an IA_NA from a client the lease file does not list: only the echo matters
 				}
 				// prefix delegation: judge with the prefix model (order-independent parts)
 				var pds []model.ReplyPD
